@@ -93,6 +93,25 @@ def subtract(ctx, akind, bkind, how, ylo, yhi):
         ctx.observe("d", list(native_triple(ctx, r)))
 
 
+def foreign_operand(ctx, ylo, yhi, side="left"):
+    """DateTime - native aware datetime whose tzinfo is a datetime.timezone of any whole-second offset"""
+    with cut(ctx, "pendulum.interval", "precise_diff", _no_breakdown):
+        P, D = ctx.P, ctx.dt
+        a, tzA, TsA, offsA, ua, usa = valid_source(ctx, "utc", ylo, yhi, p="a")
+        y, m, d, h, mi, s, us = sym_wall(ctx, "b", ylo, yhi)
+        off = sym_offset(ctx, "g")
+        nb = D.datetime(y, m, d, h, mi, s, us, tzinfo=D.timezone(D.timedelta(seconds=off)))
+        na = _native(ctx, a)
+        ref = td_us(ctx, nb - na)
+        if side == "left":
+            r = nb - a
+            ctx.claim("native(foreign tz) - DateTime == native - native", td_us(ctx, r) == ref)
+        else:
+            r = a - nb
+            ctx.claim("DateTime - native(foreign tz) == native - native", td_us(ctx, r) == -ref)
+        ctx.observe("d", list(native_triple(ctx, r)))
+
+
 def returns(ctx, kind, ylo, yhi):
     """date(), time(), replace(), astimezone(), constructors: pendulum types with the native values"""
     P, D = ctx.P, ctx.dt
@@ -156,6 +175,9 @@ def cases(tier):
             w = zw if "zone" in (ak, bk) else win
             out.append(dict(name=f"subtract {how} {ak}/{bk}", fn=subtract, params=dict(akind=ak, bkind=bk, how=how, ylo=w[0], yhi=w[1]),
                             bounds=f"every pair of valid DateTimes ({ak} x {bk}) in years {w[0]}..{w[1]}"))
+    for side in ("left", "right"):
+      out.append(dict(name=f"subtract native operand with datetime.timezone ({side})", fn=foreign_operand, params=dict(ylo=win[0], yhi=win[1], side=side),
+                    bounds=f"every UTC DateTime x every native datetime with a datetime.timezone of any offset in +-23:59:59, years {win[0]}..{win[1]}"))
     for kind in ("zone", "utc", "fixed"):
         w = zw if kind == "zone" else win
         out.append(dict(name=f"return types {kind}", fn=returns, params=dict(kind=kind, ylo=w[0], yhi=w[1]),
